@@ -203,7 +203,7 @@ class Contract:
         self.defs = list(defs)
         self.modifies = modifies
         self.name = name or func
-        self.checks = set(checks) | {"frame"}
+        self.checks = set(checks) | {"frame", "fwidth"}
         self.note = note
 
 
@@ -1113,11 +1113,14 @@ class Exec:
             for v in vs[1:]:
                 if acc.k == "float" or v.k == "float":
                     x, y = self.to_float(acc), self.to_float(v)
+                    # width of the result: the wider float operand (integers do not widen)
+                    fts = [w.ty for w in (acc, v) if w.k == "float" and w.ty is not None and w.ty.bits]
+                    rty = max(fts, key=lambda t_: t_.bits) if len(fts) == sum(1 for w in (acc, v) if w.k == "float") and fts else PYFLOAT
                     if self.fm.mode == "R":
                         c = (x <= y) if fn == "min" else (x >= y)
-                        acc = Val("float", z3.If(c, x, y), PYFLOAT)
+                        acc = Val("float", z3.If(c, x, y), rty)
                     else:
-                        acc = Val("float", self.fm.fn[fn](x, y), PYFLOAT)
+                        acc = Val("float", self.fm.fn[fn](x, y), rty)
                 else:
                     x, y = self.to_int(acc), self.to_int(v)
                     c = (x <= y) if fn == "min" else (x >= y)
@@ -1536,6 +1539,12 @@ class Exec:
         if ty.kind == "float":
             if v.k == "obj":
                 return self.havoc_scalar(what or "objfloat", ty)
+            if v.k == "float" and "fwidth" in self.c.checks and v.ty is not None and v.ty.bits and ty.bits and v.ty.bits > ty.bits \
+                    and v.extra is None:
+                # a float LOCAL / parameter narrower than the value computed for it: intermediate results lose precision
+                # (floats are otherwise treated as reals - this is the one place where their width is an obligation)
+                self.oblige("fwidth", f"{what} = {src_of(node)}: {ty.name or 'float'}{ty.bits} variable holds a "
+                            f"{v.ty.bits}-bit floating-point value without narrowing", z3.BoolVal(False), node)
             return Val("float", self.to_float(v), ty, v.extra, nan=v.nan if v.k == "float" else None)
         if ty.kind == "arr":
             if v.k == "arr":
